@@ -48,6 +48,23 @@ def case_strategy(draw):
     nstates = nb + 1
     apps = []
     nmin = 0
+    # scenario (one case in six): an action that creates a NEW well (WELSPECS + COMPDAT, layers not in track order),
+    # applied at a report step whose own keywords set the connection ordering of new wells (COMPORD)
+    if draw(st.integers(0, 5)) == 0:
+        b = draw(st.integers(0, nb - 1))
+        name = "AN%d" % (len(m.action_defs) + 1)
+        ordk = draw(st.sampled_from(["INPUT", "DEPTH", "INPUT"]))
+        pat = draw(st.sampled_from(["*", "NW*", "NW1"]))
+        i, j = draw(st.integers(1, MG.NX)), draw(st.integers(1, MG.NY))
+        body = ["WELSPECS\n 'NW1' 'G1' %d %d 1* 'OIL' /\n/\n" % (i, j),
+                "COMPDAT\n 'NW1' %d %d 3 3 'OPEN' 1* 1* 0.2 /\n 'NW1' %d %d 1 1 'OPEN' 1* 1* 0.2 /\n/\n" % (i, j, i, j)]
+        text = "ACTIONX\n '%s' 1 /\n FOPR > 50 /\n/\n" % name + "".join(body) + "ENDACTIO\n"
+        where = draw(st.integers(0, b))
+        blocks[where]["kws"].append(text)
+        blocks[b]["kws"].insert(draw(st.integers(0, len(blocks[b]["kws"]))), "COMPORD\n '%s' '%s' /\n/\n" % (pat, ordk))
+        m.action_defs[name] = {"body": body, "qkind": "none", "def_step": where}
+        apps.append({"action": name, "step": b, "wells": []})
+        nmin = b
     for _ in range(draw(st.integers(1, 3))):
         names = sorted(a for a, d in m.action_defs.items() if d["def_step"] < nstates)
         a = draw(st.sampled_from(names))
@@ -163,6 +180,8 @@ class C04(Check):
         nontriv = False
         for app in case["apps"]:
             body = "".join(case["bodies"][app["action"]])
+            if "'NW1'" in body:
+                labels.append("scenario:action-creates-a-well-in-a-step-with-COMPORD")
             if "'?'" in body:
                 labels.append("placeholder-?")
                 if len(app["wells"]) >= 2:
